@@ -299,7 +299,7 @@ func (E *Engine) encodeOnce(name string, level int, cands map[CandKey]bool) (res
 					saved := fr.curReach
 					for ri, r := range fr.rets {
 						pev := fr.env(r.st, fr.entry, nil)
-						pev.local = nil
+						// a per-path clause may mention the function's local variables: they denote their values at that return
 						var pres Value
 						switch len(r.vals) {
 						case 0:
